@@ -518,6 +518,7 @@ func runC04(c *Ctx) {
 	c04EveryBranchEmitted(c, "C04-R5")
 	c12PureAnalysis(c, "C04-R5")
 	c04SetAppend(c, "C04-R5")
+	c04ListHelpersOwnResult(c, "C04-R5")
 	c10ReadConsumes(c, "C04-R5")
 
 	c04Narrowing(c, "C04-R3", false)
@@ -579,9 +580,11 @@ func runC12(c *Ctx) {
 	c04CanHaveLabelInputs(c, "C12-R6")
 	c12PureAnalysis(c, "C12-R6")
 	c04SetAppend(c, "C12-R6")
+	c04ListHelpersOwnResult(c, "C12-R6")
 	c04NoExperimentalFlag(c, "C12-R2")
 	c04EveryBranchEmitted(c, "C12-R6")
 	c12JoinOperands(c, "C12-R7")
+	c12OnLabelsOnlyIfPossible(c, "C12-R7")
 	c.Rule("C12-R8", "AlwaysReturns does not survive filtering set operators", 1)
 	c12AlwaysReturns(c, "C12-R8")
 	c.Rule("C12-R9", "labels are excluded only where PromQL drops them; helpers get the query's whole label lists", 70)
